@@ -14,6 +14,7 @@ import (
 type control struct {
 	handlers int
 	many     bool
+	nested   bool
 	t        *rapid.T
 	trace    int64
 	feat     map[string]bool
@@ -74,7 +75,7 @@ func (g *control) proc(depth int, inLoop bool) psref.Tok {
 
 func (g *control) stmt(depth int, inLoop, first, last bool) []psref.Tok {
 	g.budget--
-	k := g.draw(37, "stmt")
+	k := g.draw(38, "stmt")
 	switch {
 	case k < 5:
 		return []psref.Tok{g.tr()}
@@ -235,6 +236,15 @@ func (g *control) stmt(depth int, inLoop, first, last bool) []psref.Tok {
 		default:
 			return []psref.Tok{psref.TL(name), psref.TX("load"), psref.TX("exec")}
 		}
+	case k == 37:
+		// dictionary enumerations inside dictionary enumerations
+		if g.nested || depth > 1 {
+			return []psref.Tok{g.tr()}
+		}
+		g.nested = true
+		g.feat["nested-dict-forall"] = true
+		g.feat["loop"] = true
+		return append(NestedForall(g.draw), g.tr())
 	case k == 36:
 		// Many rounds of a loop that is left with exit from the middle of its
 		// body (tokens follow the exit, or the `if` that carries it): whatever
